@@ -1,12 +1,12 @@
 SPECIFICATION Spec
 CONSTANTS
   N = 4
-  BaseEps <- Eps14
+  BaseEps <- One
   MatEps <- Eps124
   PVals <- P012
-  MaxHist = 3
+  MaxHist = 2
   Backup = "any"
-  Scenes <- Single
+  Scenes <- Twin
   DispWrite = "every"
   MatTable = "own"
 INVARIANT TypeOK
